@@ -59,6 +59,7 @@ import (
 	"github.com/tochemey/goakt/v4/internal/remoteclient"
 	"github.com/tochemey/goakt/v4/internal/ticker"
 	"github.com/tochemey/goakt/v4/internal/types"
+	"github.com/tochemey/goakt/v4/internal/verifhook"
 	"github.com/tochemey/goakt/v4/internal/xsync"
 	"github.com/tochemey/goakt/v4/log"
 	"github.com/tochemey/goakt/v4/passivation"
@@ -1911,6 +1912,7 @@ func (pid *PID) doReceive(receiveCtx *ReceiveContext) {
 	}
 
 	if pid.schedState.TrySchedule() {
+		verifhook.At("turn.push", &pid.schedState, 0, 0)
 		pid.dispatcher.schedule(pid)
 	}
 }
@@ -1925,8 +1927,10 @@ func (pid *PID) doReceive(receiveCtx *ReceiveContext) {
 // slipped in.
 func (pid *PID) runTurn(w *worker) {
 	if !pid.schedState.TakeForProcessing() {
+		verifhook.At("turn.end", &pid.schedState, 0, 0)
 		return
 	}
+	verifhook.At("turn.begin", &pid.schedState, 0, 0)
 
 	now := time.Now()
 	budget := w.dispatcher.throughput
@@ -1938,14 +1942,19 @@ func (pid *PID) runTurn(w *worker) {
 		received := pid.mailbox.Dequeue()
 		if received == nil {
 			if pid.finishOrReclaim() {
+				verifhook.At("turn.end", &pid.schedState, 0, 0)
 				return
 			}
+			verifhook.At("turn.begin", &pid.schedState, 1, 0)
 			continue
 		}
 		pid.dispatchOne(received, now)
 	}
+	verifhook.At("turn.release", &pid.schedState, 1, 0)
 	pid.schedState.YieldToScheduled()
+	verifhook.At("turn.resched", &pid.schedState, 0, 0)
 	w.reschedule(pid)
+	verifhook.At("turn.end", &pid.schedState, 0, 0)
 }
 
 // finishOrReclaim attempts the Processing -> Idle transition. Returns
@@ -1957,6 +1966,7 @@ func (pid *PID) runTurn(w *worker) {
 // The check is inlined (rather than passed as a closure) so the hot-path
 // does not allocate a method-bound closure on every turn end.
 func (pid *PID) finishOrReclaim() bool {
+	verifhook.At("turn.release", &pid.schedState, 0, 0)
 	pid.schedState.reset()
 	if pid.mailbox.IsEmpty() && pid.systemMailbox.IsEmpty() {
 		return true
